@@ -100,5 +100,57 @@ func fixedCases() []Case {
 				{Name: "b", Img: *im("gif", 64, 1, 52, "u.gif"), Via: "file", Size: Size{Mode: "nil"}, Slot: 1},
 			}},
 		}},
+		// widened domain: two documents filled alternately, one config object for pictures of different aspect ratios, an
+		// addition that cannot succeed followed by more pictures, a media part without a picture, then the same package with
+		// media numbered from 1 (the way Word names them) and more pictures of the format whose number comes next
+		{Steps: []Step{
+			{K: "img", Img: im("png", 6, 4, 60, "red.png"), Size: sz("wkeep", 40, 0), Cfg: 1},
+			{K: "swap"},
+			{K: "img", Img: im("gif", 3, 5, 61, "blue.gif"), Size: sz("nil", 0, 0)},
+			{K: "header", N: 0, S: "h"},
+			{K: "swap"},
+			{K: "img", Img: im("jpeg", 2, 9, 62, "image1.png"), Size: sz("hkeep", 0, 5), Cfg: 1},
+			{K: "table", N: 1, M: 1},
+			{K: "badadd", N: 3, Sel: []int{0, 0, 0}},
+			{K: "img", Img: im("jpeg", 5, 5, 63, "Same.PNG"), Size: sz("empty", 0, 0)},
+			{K: "imgnoelem", Img: im("png", 2, 2, 64, "x.png"), Size: sz("nil", 0, 0)},
+			{K: "img", Img: im("png", 7, 3, 65, "same.png"), Size: sz("emptykeep", 0, 0)},
+			{K: "renumber", N: schemeReverse, Med: medShift, MedK: 0},
+			{K: "img", Img: im("png", 4, 4, 66, "SAME.png"), Size: sz("both", 10, 10)},
+			{K: "swap"},
+			{K: "img", Img: im("gif", 1, 1, 67, "b.gif"), Size: sz("nil", 0, 0)},
+			{K: "badadd", N: 0},
+			{K: "img", Img: im("gif", 2, 1, 68, "b.gif"), Size: sz("nil", 0, 0)},
+		}},
+		// calls on pictures that are already in the document: ResizeImage on a body and on a cell picture (explicit size, explicit
+		// size with KeepAspectRatio, one dimension), the other setters, through a save and a reopen
+		{Steps: []Step{
+			{K: "img", Img: im("png", 8, 2, 70, "a.png"), Size: sz("nil", 0, 0)},
+			{K: "table", N: 1, M: 2},
+			{K: "cellimgd", Img: im("jpeg", 3, 9, 71, "b.jpg"), Size: sz("wkeep", 20, 0), Sel: []int{0, 0, 1}},
+			{K: "resize", Ref: 0, Size: sz("both", 80, 60)},
+			{K: "resize", Ref: 1, Size: sz("bothkeep", 30, 10)},
+			{K: "setlook", Ref: 0, N: 0, Look: []int{1, 2, 0}},
+			{K: "setlook", Ref: 1, N: 4, Look: []int{0, 2, 0}},
+			{K: "save"},
+			{K: "resize", Ref: 0, Size: sz("hkeep", 0, 12)},
+			{K: "reopen", B: true},
+			{K: "img", Img: im("gif", 5, 5, 72, "c.gif"), Size: sz("none", 0, 0)},
+		}},
+		// the file route of the template renderer with merged template data: placeholder names that are prefixes of one another
+		// or differ in case, a payload that is another one plus bytes after its end marker, a media part of more than 64 KiB,
+		// then the same bytes once more under another name
+		{Steps: []Step{
+			{K: "phpara", Texts: []string{"", ""}, Phs: []string{"a"}},
+			{K: "phpara", Texts: []string{"", ""}, Phs: []string{"ab"}},
+			{K: "phpara", Texts: []string{"", ""}, Phs: []string{"A"}},
+			{K: "render", Eng: 3, Merge: true, Data: []TplImg{
+				{Name: "a", Img: *im("png", 10, 4, 80, "p.png"), Via: "data", Size: Size{Mode: "nil"}},
+				{Name: "ab", Img: *im("png", 10, 4, 80|2<<tailShift, "p.png"), Via: "file", Size: Size{Mode: "wkeep", W: 25}},
+				{Name: "A", Img: *im("png", 160, 160, 81, "big.png"), Via: "details-data", Size: Size{Mode: "both", W: 50, H: 50}},
+			}},
+			{K: "reopen"},
+			{K: "img", Img: im("png", 10, 4, 80, "q.png"), Size: sz("hkeep", 0, 8)},
+		}},
 	}
 }
